@@ -1,6 +1,83 @@
-(** C14 -- placeholder until Proofs/LayoutProof.v is integrated *)
-From SQ Require Import Base Display.
-Theorem C14_counter_line_empty : counter_line (mkCnt [] 0 0%Z) = [].
-Proof. reflexivity. Qed.
-Check C14_counter_line_empty : counter_line (mkCnt [] 0 0%Z) = [].
-Print Assumptions C14_counter_line_empty.
+(** C14 -- printed rows render the table faithfully under their column headers. *)
+From SQ Require Import Base Table Sort Display LayoutProof.
+Local Open Scope N_scope.
+
+(** header and separator have the same display width for every option record *)
+Theorem C14_header_separator_width : forall o : opts, Datatypes.length (header_line o) = Datatypes.length (separator_line o).
+Proof. exact header_separator_same_width. Qed.
+Check C14_header_separator_width : forall o : opts, Datatypes.length (header_line o) = Datatypes.length (separator_line o).
+Print Assumptions C14_header_separator_width.
+
+(** whenever every value fits its column, a row has exactly the header's width -- all rows, all 32 flag sets *)
+Theorem C14_row_width : forall (o : opts) (now : Z) (dcell : row -> Obs.bytes) (r : row), fits_with dcell o now r -> Datatypes.length (render_row o now dcell r) = Datatypes.length (header_line o).
+Proof. exact row_width. Qed.
+Check C14_row_width : forall (o : opts) (now : Z) (dcell : row -> Obs.bytes) (r : row), fits_with dcell o now r -> Datatypes.length (render_row o now dcell r) = Datatypes.length (header_line o).
+Print Assumptions C14_row_width.
+
+(** the same under plain arithmetic bounds on the values (|lat| <= 99, |lon| <= 999, altitude < 100000, ...) *)
+Theorem C14_row_width_bounds : forall (o : opts) (now : Z) (dcell : row -> Obs.bytes) (r : row), fits_bounds dcell o now r -> Datatypes.length (render_row o now dcell r) = Datatypes.length (header_line o).
+Proof. exact row_width_bounds. Qed.
+Check C14_row_width_bounds : forall (o : opts) (now : Z) (dcell : row -> Obs.bytes) (r : row), fits_bounds dcell o now r -> Datatypes.length (render_row o now dcell r) = Datatypes.length (header_line o).
+Print Assumptions C14_row_width_bounds.
+
+(** every cell starts exactly under its header column: the first k cells and the first k header columns have equal width, for every k *)
+Theorem C14_cells_under_columns : forall (o : opts) (now : Z) (dcell : row -> Obs.bytes) (r : row), fits_with dcell o now r -> forall k : nat, Datatypes.length (enabled o (firstn k (cells now dcell r))) = Datatypes.length (List.concat (map (header_cell o) (firstn k Tables.header_cols))).
+Proof. exact cell_offsets. Qed.
+Check C14_cells_under_columns : forall (o : opts) (now : Z) (dcell : row -> Obs.bytes) (r : row), fits_with dcell o now r -> forall k : nat, Datatypes.length (enabled o (firstn k (cells now dcell r))) = Datatypes.length (List.concat (map (header_cell o) (firstn k Tables.header_cols))).
+Print Assumptions C14_cells_under_columns.
+
+(** the 33 cells correspond one-to-one, in order, to the header columns: same group, and width = column width + separator when displayed *)
+Theorem C14_cells_match_columns : forall (dcell : row -> Obs.bytes) (o : opts) (now : Z) (r : row), fits_with dcell o now r -> Forall2 (cell_ok o) (cells now dcell r) Tables.header_cols.
+Proof. exact cells_aligned. Qed.
+Check C14_cells_match_columns : forall (dcell : row -> Obs.bytes) (o : opts) (now : Z) (r : row), fits_with dcell o now r -> Forall2 (cell_ok o) (cells now dcell r) Tables.header_cols.
+Print Assumptions C14_cells_match_columns.
+
+(** a rendered row is the concatenation of the cells of the enabled groups followed by the last-contact age *)
+Theorem C14_row_is_its_cells : forall (o : opts) (now : Z) (dcell : row -> Obs.bytes) (r : row), render_row o now dcell r = enabled o (cells now dcell r) ++ age_cell now r.
+Proof. exact row_cells. Qed.
+Check C14_row_is_its_cells : forall (o : opts) (now : Z) (dcell : row -> Obs.bytes) (r : row), render_row o now dcell r = enabled o (cells now dcell r) ++ age_cell now r.
+Print Assumptions C14_row_is_its_cells.
+
+(** an unknown value renders as blanks (per column: the precise condition under which the cell is all spaces) *)
+Theorem C14_blank_when_unknown : forall (now : Z) (dcell : row -> Obs.bytes) (r : row), Forall2 (fun (c : string * Obs.bytes) (unknown : Prop) => unknown -> blank (snd c)) (cells now dcell r) (unknown_conds r).
+Proof. exact blank_when_unknown. Qed.
+Check C14_blank_when_unknown : forall (now : Z) (dcell : row -> Obs.bytes) (r : row), Forall2 (fun (c : string * Obs.bytes) (unknown : Prop) => unknown -> blank (snd c)) (cells now dcell r) (unknown_conds r).
+Print Assumptions C14_blank_when_unknown.
+
+(** a row about which nothing is known is the address followed by blanks, at full width *)
+Theorem C14_blank_row : forall (o : opts) (now : Z) (dcell : row -> Obs.bytes) (a : N), render_row o now dcell (row_new now <| icao := a |>) = Obs.hex_go 6 a [] ++ spaces (54 + (if fl_altitude o then 17%nat else 0%nat) + 18 + (if fl_speed o then 13%nat else 0%nat) + (if fl_angles o then 8%nat else 0%nat) + (if fl_weather o then 26%nat else 0%nat)) ++ (if fl_extra o then [48; 48] ++ spaces 15 else []) ++ [32; 48].
+Proof. exact row_new_render. Qed.
+Check C14_blank_row : forall (o : opts) (now : Z) (dcell : row -> Obs.bytes) (a : N), render_row o now dcell (row_new now <| icao := a |>) = Obs.hex_go 6 a [] ++ spaces (54 + (if fl_altitude o then 17%nat else 0%nat) + 18 + (if fl_speed o then 13%nat else 0%nat) + (if fl_angles o then 8%nat else 0%nat) + (if fl_weather o then 26%nat else 0%nat)) ++ (if fl_extra o then [48; 48] ++ spaces 15 else []) ++ [32; 48].
+Print Assumptions C14_blank_row.
+
+(** the header consists of the base columns plus exactly the columns of the groups whose letter is given: width = 80 + 17 [A] + 13 [s] + 8 [a] + 26 [w] + 17 [e] *)
+Theorem C14_groups_in_header : forall o : opts, Datatypes.length (header_line o) = (80 + (if fl_altitude o then 17 else 0) + (if fl_speed o then 13 else 0) + (if fl_angles o then 8 else 0) + (if fl_weather o then 26 else 0) + (if fl_extra o then 17 else 0))%nat.
+Proof. exact header_groups_width. Qed.
+Check C14_groups_in_header : forall o : opts, Datatypes.length (header_line o) = (80 + (if fl_altitude o then 17 else 0) + (if fl_speed o then 13 else 0) + (if fl_angles o then 8 else 0) + (if fl_weather o then 26 else 0) + (if fl_extra o then 17 else 0))%nat.
+Print Assumptions C14_groups_in_header.
+
+(** and rows have the same group widths *)
+Theorem C14_groups_in_rows : forall (o : opts) (now : Z) (dcell : row -> Obs.bytes) (r : row), fits_with dcell o now r -> Datatypes.length (render_row o now dcell r) = (80 + (if fl_altitude o then 17 else 0) + (if fl_speed o then 13 else 0) + (if fl_angles o then 8 else 0) + (if fl_weather o then 26 else 0) + (if fl_extra o then 17 else 0))%nat.
+Proof. exact row_groups_width. Qed.
+Check C14_groups_in_rows : forall (o : opts) (now : Z) (dcell : row -> Obs.bytes) (r : row), fits_with dcell o now r -> Datatypes.length (render_row o now dcell r) = (80 + (if fl_altitude o then 17 else 0) + (if fl_speed o then 13 else 0) + (if fl_angles o then 8 else 0) + (if fl_weather o then 26 else 0) + (if fl_extra o then 17 else 0))%nat.
+Print Assumptions C14_groups_in_rows.
+
+(** a group is shown iff its letter (A, s, a, w, e) is among the -i letters *)
+Theorem C14_group_letters : forall (o : opts) (g : string), group_on o g = true <-> g = ""%string \/ g = "altitude"%string /\ In 65 (display_info o) \/ g = "speed"%string /\ In 115 (display_info o) \/ g = "angles"%string /\ In 97 (display_info o) \/ g = "weather"%string /\ In 119 (display_info o) \/ g = "extra"%string /\ In 101 (display_info o).
+Proof. exact group_on_iff. Qed.
+Check C14_group_letters : forall (o : opts) (g : string), group_on o g = true <-> g = ""%string \/ g = "altitude"%string /\ In 65 (display_info o) \/ g = "speed"%string /\ In 115 (display_info o) \/ g = "angles"%string /\ In 97 (display_info o) \/ g = "weather"%string /\ In 119 (display_info o) \/ g = "extra"%string /\ In 101 (display_info o).
+Print Assumptions C14_group_letters.
+
+(** all lines of a printed frame (header, separator, rows, separator) have identical display width when every row fits *)
+Theorem C14_frame_lines : forall (o : opts) (now : Z) (dkey : row -> Z) (dcell : row -> Obs.bytes) (s : state), (forall p : N * row, In p (tbl s) -> fits_with dcell o now (snd p)) -> Forall (fun l : list N => Datatypes.length l = Datatypes.length (header_line o)) ([header_line o; separator_line o] ++ map (fun p : N * row => render_row o now dcell (snd p)) (print_order dkey (order_by o) (tbl s)) ++ [separator_line o]).
+Proof. exact frame_lines_same_width. Qed.
+Check C14_frame_lines : forall (o : opts) (now : Z) (dkey : row -> Z) (dcell : row -> Obs.bytes) (s : state), (forall p : N * row, In p (tbl s) -> fits_with dcell o now (snd p)) -> Forall (fun l : list N => Datatypes.length l = Datatypes.length (header_line o)) ([header_line o; separator_line o] ++ map (fun p : N * row => render_row o now dcell (snd p)) (print_order dkey (order_by o) (tbl s)) ++ [separator_line o]).
+Print Assumptions C14_frame_lines.
+
+(** non-vacuity: the 'fits' premise is satisfiable *)
+Theorem C14_fits_satisfiable : forall (dcell : row -> Obs.bytes) (o : opts) (now : Z) (a : N), fits_with dcell o now (row_new now <| icao := a |>).
+Proof. exact row_new_fits. Qed.
+Check C14_fits_satisfiable : forall (dcell : row -> Obs.bytes) (o : opts) (now : Z) (a : N), fits_with dcell o now (row_new now <| icao := a |>).
+Print Assumptions C14_fits_satisfiable.
+
+
